@@ -54,7 +54,12 @@ ENGINES = {
         "harness": ["harness/cmd/reload_sim_test.go"],
         "keepgoing": True,
         "quick_secs": 45, "thorough_secs": 600,
-        "probes": [],
+        "probes": ["reload.stage.cfg", "reload.stage.build", "reload.stage.listener", "reload.stage.serve",
+                   "reload.stage.handoff", "reload.stage.retire",
+                   "reload.sig.queued", "reload.sig.load", "reload.sig.prepare", "reload.sig.listener",
+                   "reload.sig.handoff", "reload.sig.retire",
+                   "reload.path.staged", "reload.path.full", "reload.busy-reported",
+                   "reload.raw-signal-accepted-after-release", "reload.sighup"],
     },
 }
 
